@@ -13,7 +13,7 @@ from ._pairs import compare_tables, compare_all, executed_rows, table_state_keys
 
 PID = "C14"
 LEVEL = "model_checking"
-WITNESSES = ["cut_day_compared", "cut_in_season", "cut_changes_future", "extra_rows_pair", "end_extension_pair", "extension_adds_season", "thermal_crop_pair", "extension_with_off_season", "seasons_of_unequal_thermal_length"]
+WITNESSES = ["cut_day_compared", "cut_in_season", "cut_changes_future", "extra_rows_pair", "end_extension_pair", "extension_adds_season", "thermal_crop_pair", "extension_with_off_season", "seasons_of_unequal_thermal_length", "season_expected_from_the_configuration"]
 NONTRIVIAL = ["cut_changes_future", "extra_rows_pair", "end_extension_pair"]
 
 CUT_CONFIGS = {
@@ -69,6 +69,11 @@ def scenarios(tier, seed=0):
     for name in (allnames[::3] if q else allnames):
         for ext in ([1, 365] if q else [1, 30, 365, 730]):
             yield {"kind": "extend", "name": name, "ext": ext}
+    # end dates on every side of the planting month/day (two seasons completed, a third planting date on / just before / after the end date)
+    for name in (["Maize", "Tomato"] if q else [n for n in allnames if not n.endswith("GDD")][::3]):
+        for end in ("2003/01/01", "2003/04/30", "2003/05/01", "2003/05/02", "2003/06/15"):
+            for ext in ((30, 365) if q else (1, 30, 365, 730)):
+                yield {"kind": "extend", "name": name, "ext": ext, "end": end}
     # a CO2 record that is not annual over the simulated years (as the bundled record after 2010, or a user table): the concentration of a
     # completed season must not depend on how far the run goes on (two completed seasons, extension across a table node)
     for name in (["Wheat", "Soybean", "Potato", "Cotton"] if q else [n for n in allnames if not n.endswith("GDD")][::2]):
@@ -201,6 +206,29 @@ def run(scn):
         hit("end_extension_pair")
         if len(tp["final"]) > len(tb["final"]):
             hit("extension_adds_season")
+        # seasons that MUST be complete in the shorter run, derived from the configuration alone (calendar-day crops: a season sown on the
+        # planting date inside the window lasts at most MaturityCD days and is harvested at the latest 30 days after that)
+        if not scn["name"].endswith("GDD") and not (scn.get("cropkw") or {}).get("SwitchGDD") and not ab:
+            L = A.crop_length_days(spec["crop"])
+            s0, e0 = A._d(spec["start"]), A._d(spec["end"])
+            mm, dd = (int(x) for x in spec["crop"]["planting"].split("/"))
+            expected = [p0 for p0 in (dt.datetime(y, mm, dd) for y in range(s0.year, e0.year + 1)) if p0 >= s0 and p0 + dt.timedelta(days=L + 31) <= e0]
+            for p0 in expected:
+                r0 = (p0 - s0).days
+                hit("season_expected_from_the_configuration")
+                if r0 >= len(tb["storage"]) or tb["storage"][r0, 1] != 1:
+                    res["violations"].append(V("completed-season-present-in-the-shorter-run", r0, {"planting": str(p0.date()), "end": spec["end"], "growing_season_flag_on_the_planting_day": float(tb["storage"][r0, 1]) if r0 < len(tb["storage"]) else None,
+                                                                                                   "summary_rows": len(tb["final"])}, "a season sown on every planting date whose latest harvest date lies inside the window", crop=scn["name"], sig=["extend-missing-season"]))
+                    return res
+                d = compare_tables(tb, tp, rows=np.arange(r0, r0 + L))
+                if d is not None:
+                    res["violations"].append(V("completed-season-unchanged-by-extension", d.get("row"), {"ext": scn["ext"], "planting": str(p0.date()), "first_difference": d}, "bitwise equal rows", crop=scn["name"],
+                                               sig=["extend", d.get("table"), d.get("col")]))
+                    return res
+            if len(tb["final"]) < len(expected):
+                res["violations"].append(V("completed-season-present-in-the-shorter-run", None, {"summary_rows": len(tb["final"]), "seasons_complete_by_configuration": [str(x.date()) for x in expected]}, "one summary row per completed season",
+                                           crop=scn["name"], sig=["extend-missing-summary"]))
+                return res
         ex = executed_rows(tb)
         season_col = tb["flux"][:, FX["season_counter"]]
         for r, idx in zip(tb["final"], tb["final_index"]):
